@@ -76,6 +76,21 @@ func c06NoEffectPath(r *an.Run, m *runModel) {
 	}
 	r.Count("calls on the unmatched path", n)
 	r.Min("calls on the unmatched path", 2)
+	// and under --print-only the echo is not optional: with matched == false and Print == true every way to
+	// the next file passes through it — nothing else (the state of the runner, what happened to earlier
+	// files, the file's contents) decides whether an unmatched file is echoed
+	var echo ssa.CallInstruction
+	for _, c := range callsAfter(region, m.apply) {
+		if bs, isW := isStdoutWrite(c); isW && an.Unwrap(bs) == m.content {
+			echo = c
+		}
+	}
+	if echo != nil {
+		printing := m.hyp(map[string]bool{"Print": true, "Diff": false}, map[ssa.Value]bool{m.matched: false})
+		hdr := m.loop.Loop.Header
+		reach := an.ReachUnder(m.apply.Block(), printing, func(b *ssa.BasicBlock, i int) bool { return b == echo.Block() && b != m.apply.Block() })
+		r.Check(!reach[hdr], short(f)+"|unmatched|echo-unconditional", echo.Pos(), "with --print-only every unmatched file is echoed: no other condition lies between the matched == false decision and the write of the original bytes")
+	}
 	// and the region really ends the iteration: no block of the matched pipeline is inside
 	for _, c := range an.Calls(f) {
 		if an.IsCallTo(c, formatNode, importsProcess) && region[c.Block()] {
